@@ -88,6 +88,27 @@ CHECKS = {
         "discount) and TLC checks the per-field arithmetic against them for all witness subsets and varint boundaries; the harness "
         "compares every reported figure with the specification's number and with the real full / witness-stripped byte lengths.",
    note="enumerated shape families; lengths at varint boundaries 252/253/65535/65536 included."),
+ "C03": dict(
+   cat="model_checking", design="§4 C03",
+   technique="TLA+ specification of the three signing messages as token / hash-expression sequences written from the published "
+             "algorithms, TLC-checked structural properties and per-field differencing; every emitted query replayed: message bytes "
+             "and digest computed by an independent serializer + SHA-256 compared with the library, plus field sensitivity",
+   text="The specification is an independent implementation of the legacy, BIP143-elements and BIP341-elements messages at the level "
+        "of which field enters which hash in which order; TLC enumerates every query class in bounds and decides for every single-field "
+        "touch whether the message changes; the harness evaluates the expression trees with its own SHA-256 and compares signing data "
+        "and digests with all sighash entry points, then checks that the real digest moves exactly when the specification's does.",
+   note="hash functions are free constructors; enumerated transaction families (1..3 inputs, 0..3 outputs); pinned Elements vectors of "
+        "the repository anchor the legacy outpoint form."),
+ "C13": dict(
+   cat="model_checking", design="§4 C13",
+   technique="TLA+ state machine of the three lazily filled caches with version snapshots, TLC-checked over all sequences in bounds; "
+             "emitted sequences replayed on one real cache object against fresh caches and the hook's cache state; random long "
+             "sequences trace-validated",
+   text="TLC explores every query / witness_mut sequence up to the bound and checks that each answer is computed from current data, "
+        "that no cache depends on script witnesses and that One suffices exactly under ANYONECANPAY; every sequence is replayed on "
+        "one SighashCache<&mut Transaction>, each answer compared with a fresh cache's and the cfg-guarded hook's fill state with the "
+        "specification's after every step; random sequences of length <= 50 are validated by Trace_SighashCache.",
+   note="transaction unchanged except through witness_mut; same spent outputs in all queries; hook exposes only three booleans."),
 }
 NA_PENDING = "check not built yet in this round (planned, see DESIGN.md §4)"
 
